@@ -8,6 +8,7 @@ import (
 	"encoding/json"
 	"fmt"
 	"os"
+	"runtime/debug"
 	"testing"
 	"testing/synctest"
 	"time"
@@ -87,7 +88,14 @@ func runOne(seed uint64, prof profile, tape *rt.Tape, jb *job) (res runResult, r
 		run.setup()
 	}
 	if run.infra == "" {
-		run.loop()
+		func() {
+			defer func() {
+				if v := recover(); v != nil {
+					run.infra = fmt.Sprintf("panic in the harness (scheduler context): %v\n%s", v, debug.Stack())
+				}
+			}()
+			run.loop()
+		}()
 	}
 	rt.Uninstall()
 	if traceF != nil {
